@@ -9,6 +9,7 @@ package main
 // a guard is written as `if c { continue }` or as `if !c { ... }`.
 
 import (
+	"os"
 	"fmt"
 	"go/constant"
 	"go/token"
@@ -285,6 +286,24 @@ func postingFieldDesc(cg cgView, v ssa.Value, depth int) string {
 				}
 			}
 		}
+	case *ssa.Call:
+		// an accessor helper: `func lineOf(p *ast.Posting) int { return p.Range.Start.Line - 1 }`
+		if cal := x.Call.StaticCallee(); cal != nil && cal.Blocks != nil && inModule(cal) && cal.Signature.Results().Len() == 1 {
+			d, n := "", 0
+			for _, b := range cal.Blocks {
+				for _, ins := range b.Instrs {
+					if r, ok := ins.(*ssa.Return); ok && len(r.Results) == 1 {
+						de := postingFieldDesc(cg, unspillResult(r.Results[0], b), depth+1)
+						if n > 0 && de != d {
+							return ""
+						}
+						d = de
+						n++
+					}
+				}
+			}
+			return d
+		}
 	case *ssa.Phi:
 		d := ""
 		for i, e := range x.Edges {
@@ -355,7 +374,43 @@ func mapOrigins(cg cgView, v ssa.Value, depth int, out map[string]bool) {
 		out["field:"+st.Field(x.Field).Name()] = true
 	case *ssa.Call:
 		out[fmt.Sprintf("call@%d", x.Pos())] = true
+		// a helper that builds and returns the map
+		if cal := x.Call.StaticCallee(); cal != nil && cal.Blocks != nil && inModule(cal) {
+			for _, b := range cal.Blocks {
+				for _, ins := range b.Instrs {
+					if r, ok := ins.(*ssa.Return); ok {
+						for _, rv := range r.Results {
+							if _, isMap := rv.Type().Underlying().(*types.Map); isMap {
+								mapOrigins(cg, unspillResult(rv, b), depth+1, out)
+							}
+						}
+					}
+				}
+			}
+		}
 	}
+}
+
+// setMembership: cond is a membership test in a set-like map: `m[k]` of a map[K]bool, or the ok of `_, ok := m[k]`.
+func setMembership(cond ssa.Value) (*ssa.Lookup, bool) {
+	if lk, ok := cond.(*ssa.Lookup); ok && !lk.CommaOk {
+		return lk, true
+	}
+	if ex, ok := cond.(*ssa.Extract); ok && ex.Index == 1 {
+		if lk, ok := ex.Tuple.(*ssa.Lookup); ok && lk.CommaOk {
+			return lk, true
+		}
+	}
+	return nil, false
+}
+
+// isSetElem: the element type of a set-like map (bool or an empty struct).
+func isSetElem(t types.Type) bool {
+	if b, ok := t.Underlying().(*types.Basic); ok && b.Kind() == types.Bool {
+		return true
+	}
+	st, ok := t.Underlying().(*types.Struct)
+	return ok && st.NumFields() == 0
 }
 
 func sameValueOrDesc(cg cgView, a, b ssa.Value) bool {
@@ -425,7 +480,7 @@ func ruleFormatterEdits(c *Ctx) {
 					continue
 				}
 				mt, ok := mu.Map.Type().Underlying().(*types.Map)
-				if !ok || types.TypeString(mt.Key(), nil) != "int" || types.TypeString(mt.Elem(), nil) != "bool" {
+				if !ok || types.TypeString(mt.Key(), nil) != "int" || !isSetElem(mt.Elem()) {
 					continue
 				}
 				if d := postingFieldDesc(cg, mu.Key, 0); d != "" {
@@ -466,7 +521,7 @@ func ruleFormatterEdits(c *Ctx) {
 		// control dependence: built only when the line is not in the set of posting lines
 		skip := false
 		for _, cc := range e.conds(cg) {
-			lk, ok := cc.Cond.(*ssa.Lookup)
+			lk, ok := setMembership(cc.Cond)
 			if !ok || cc.Taken {
 				continue
 			}
@@ -489,7 +544,7 @@ func ruleFormatterEdits(c *Ctx) {
 		fname := e.where(c.P)
 		errSkip := false
 		for _, cc := range e.conds(cg) {
-			lk, ok := cc.Cond.(*ssa.Lookup)
+			lk, ok := setMembership(cc.Cond)
 			if !ok || cc.Taken {
 				continue
 			}
@@ -544,18 +599,22 @@ func ruleFormatHandlerErrors(c *Ctx) {
 		return
 	}
 	okFlow := false
-	fs := []*ssa.Function{fmtH}
-	// helpers called by the handler count (the options may be built in one)
-	for _, b := range fmtH.Blocks {
-		for _, ins := range b.Instrs {
-			if call, ok := ins.(ssa.CallInstruction); ok {
-				if cal := call.Common().StaticCallee(); cal != nil && inModule(cal) && cal.Blocks != nil && cal.Pkg == fmtH.Pkg {
-					fs = append(fs, cal)
+	ci := buildConc(c)
+	reach := Reach(ci.g, []*ssa.Function{fmtH}, true)
+	isParseErrs := func(sl map[ssa.Value]bool) bool {
+		for v := range sl {
+			if ex, ok := v.(*ssa.Extract); ok && ex.Index == 1 {
+				if call, ok := ex.Tuple.(*ssa.Call); ok && call.Common().StaticCallee() != nil && calleeNameIs(call.Common().StaticCallee(), "parser.Parse") {
+					return true
 				}
 			}
 		}
+		return false
 	}
-	for _, f := range fs {
+	for _, f := range c.P.ModuleFuncs() {
+		if !reach[f] {
+			continue
+		}
 		for _, b := range f.Blocks {
 			for _, ins := range b.Instrs {
 				st, ok := ins.(*ssa.Store)
@@ -570,16 +629,18 @@ func ruleFormatHandlerErrors(c *Ctx) {
 				if !errorLinesField(c, fst.Field(fa.Field).Name()) {
 					continue
 				}
-				sl := backSlice(st.Val)
-				// the stored map is filled from the second result of parser.Parse
-				for _, b2 := range f.Blocks {
-					for _, i2 := range b2.Instrs {
-						if mu, ok := i2.(*ssa.MapUpdate); ok && sl[mu.Map] {
-							for v := range backSlice(mu.Key) {
-								if ex, ok := v.(*ssa.Extract); ok && ex.Index == 1 {
-									if call, ok := ex.Tuple.(*ssa.Call); ok && call.Common().StaticCallee() != nil && calleeNameIs(call.Common().StaticCallee(), "parser.Parse") {
-										okFlow = true
-									}
+				// the stored map (followed through parameters and helper results) is filled with keys that derive
+				// from the second result of parser.Parse
+				sl := sliceUp(ci, st.Val, f)
+				for _, g := range c.P.ModuleFuncs() {
+					if !reach[g] {
+						continue
+					}
+					for _, b2 := range g.Blocks {
+						for _, i2 := range b2.Instrs {
+							if mu, ok := i2.(*ssa.MapUpdate); ok && sl[mu.Map] {
+								if isParseErrs(sliceUp(ci, mu.Key, g)) {
+									okFlow = true
 								}
 							}
 						}
@@ -611,6 +672,14 @@ func ruleIndent(c *Ctx) {
 			nRep++
 			sl := sliceUp(ci, call.Common().Args[1], f)
 			ind, minc := sliceHasFieldRead(sl, "IndentSize"), sliceHasFieldRead(sl, "MinAlignmentColumn")
+			if os.Getenv("HLDEBUG") == "indent" {
+				fmt.Fprintf(os.Stderr, "INDENT %s ind=%v minc=%v\n", c.P.pos(call.Pos()), ind, minc)
+				for v := range sl {
+					if fa, ok := v.(*ssa.FieldAddr); ok {
+						fmt.Fprintf(os.Stderr, "   %s %s in %s\n", fa.Name(), fieldVarOfAddr(fa).Name(), fa.Parent())
+					}
+				}
+			}
 			if ind && minc {
 				nPad++
 			}
